@@ -466,10 +466,21 @@ func (b BrokenFeatures) Error() string {
 }
 
 func (b *BasicWorldBuilder) Finish(o *BuildOptions) (b6.World, error) {
+	// Areas are handled in a second stage, after the paths they reference,
+	// since validating a path can invert it, or cause it to be removed.
 	stages := []func(toIndex chan<- Feature, byID *FeaturesByID){
 		func(c chan<- Feature, features *FeaturesByID) {
 			for _, feature := range *features {
-				c <- feature
+				if feature.FeatureID().Type != b6.FeatureTypeArea {
+					c <- feature
+				}
+			}
+		},
+		func(c chan<- Feature, features *FeaturesByID) {
+			for _, feature := range *features {
+				if feature.FeatureID().Type == b6.FeatureTypeArea {
+					c <- feature
+				}
 			}
 		},
 	}
